@@ -287,6 +287,21 @@ func DrawWorld(t *rapid.T, cfg WorldCfg) (*World, *Drawn) {
 	}
 
 	w.HonestCollateral()
+	var timeSetZone *time.Location
+	// the caller's five instants may carry any time zone (time.Now() in a local zone, a parsed date with an offset): the
+	// instant is what counts. The documents may spell their dates with a numeric offset, and may carry members that a
+	// later schema revision adds.
+	if !cfg.Simple {
+		zones := []*time.Location{nil, nil, time.FixedZone("east", 14*3600), time.FixedZone("west", -12*3600), time.FixedZone("half", 5*3600+1800), time.FixedZone("", -3600)}
+		timeSetZone = rapid.SampledFrom(zones).Draw(t, "timeSetZone")
+		w.TcbInfo.DateZone = rapid.SampledFrom(zones).Draw(t, "tcbInfoDateZone")
+		w.QeID.DateZone = rapid.SampledFrom(zones).Draw(t, "qeIdentityDateZone")
+		d.add(w.TcbInfo.DateZone != nil || w.QeID.DateZone != nil, "document-dates-with-a-numeric-offset")
+		if rapid.IntRange(0, 3).Draw(t, "documentsCarryUnknownMembers") == 0 {
+			w.TcbInfo.UnknownMembers, w.QeID.UnknownMembers = true, true
+			d.add(true, "documents-with-members-added-later")
+		}
+	}
 	// how the caller comes by its options value: built by hand, or verify.DefaultOptions() with every setting filled in
 	w.FromDefault = rapid.IntRange(0, 3).Draw(t, "optionsStartFromDefaultOptions") == 0
 	d.add(w.FromDefault, "options-from-DefaultOptions")
@@ -422,6 +437,10 @@ func DrawWorld(t *rapid.T, cfg WorldCfg) (*World, *Drawn) {
 			w.PckCrl.RevokedAt = append(w.PckCrl.RevokedAt, Wide.NotBefore.Add(time.Duration(s.Intn(int(span)))*time.Second))
 			_ = i
 		}
+	}
+	if z := timeSetZone; z != nil {
+		w.Times = verify.TimeSet{PckCertChain: w.Times.PckCertChain.In(z), TcbInfo: w.Times.TcbInfo.In(z), QeIdentity: w.Times.QeIdentity.In(z), PckCrl: w.Times.PckCrl.In(z), RootCaCrl: w.Times.RootCaCrl.In(z)}
+		d.add(true, "time-set-in-another-zone")
 	}
 	if useRealNow {
 		w.UseRealNow()
